@@ -77,10 +77,10 @@ def _cond(rng, leaf, depth: int, sym=None) -> str:
     a, b = leaf(), leaf()
     if sym is not None:
         a = sym()  # a relation between two literals folds to a constant: keep one side symbolic
-    if depth > 0 and k == 0:
-        return "And(%s, %s)" % (_cond(rng, leaf, depth - 1, sym), _cond(rng, leaf, depth - 1, sym))
-    if depth > 0 and k == 1:
-        return "Or(%s, %s)" % (_cond(rng, leaf, depth - 1, sym), _cond(rng, leaf, depth - 1, sym))
+    if depth > 0 and k in (0, 1):
+        # two to four operands, possibly nested (sympy flattens nested And/Or of one kind)
+        n = rng.choice([2, 2, 3, 3, 4])
+        return "%s(%s)" % ("And" if k == 0 else "Or", ", ".join(_cond(rng, leaf, depth - 1, sym) for _ in range(n)))
     if depth > 0 and k == 2:
         return "Not(%s)" % _cond(rng, leaf, depth - 1, sym)
     if k == 3:
@@ -157,7 +157,7 @@ def default_knobs(rng) -> dict:
         "max_fan": rng.choice([2, 3, 4, 6, 8]),
         "p_func": rng.choice([0.0, 0.15, 0.3]),
         "p_cond": rng.choice([0.0, 0.05, 0.12, 0.2]),
-        "cond_depth": rng.choice([0, 1, 1, 2]),
+        "cond_depth": rng.choice([0, 1, 1, 2, 2]),
         "p_sing": rng.choice([0.0, 0.05, 0.15]),
         "layers": rng.choice([1, 2, 3, 5, 8]),
         "maxlen": rng.choice([1, 3, 6, 12]),
@@ -194,6 +194,11 @@ def gen_model(rng, knobs: dict | None = None) -> str:
         if c not in seen:
             seen.append(c)
     comps = seen
+    # sometimes one extra doubly-tagged group, as in the shipped cardiac models:
+    # states("Sodium current", "Sodium current m gate", m=...) / expressions("...", "...")
+    named = [c for c in comps if c != ""]
+    if named and rng.random() < 0.3:
+        comps.append(named[0] + "|" + named[0] + " gate " + ident(rng, set(), 4))
 
     states = []  # (name, comp, value, unit, desc)
     for i in range(kn["n_states"]):
@@ -201,7 +206,10 @@ def gen_model(rng, knobs: dict | None = None) -> str:
         states.append((ident(rng, used, maxlen), comp, number(rng)))
     params = []
     for i in range(kn["n_params"]):
-        params.append((ident(rng, used, maxlen), rng.choice(comps), number(rng)))
+        val = number(rng)
+        if rng.random() < 0.08:  # a parameter whose value is itself a (numeric) expression
+            val = rng.choice(["%s*%s", "%s/%s", "%s + %s", "exp(%s) - %s", "-(%s + %s)"]) % (number(rng), rng.choice(["2", "3.0", "0.5"]))
+        params.append((ident(rng, used, maxlen), rng.choice(comps), val))
 
     state_names = [s[0] for s in states]
     param_names = [p[0] for p in params]
@@ -254,7 +262,7 @@ def gen_model(rng, knobs: dict | None = None) -> str:
         derivs.append(("d%s_dt" % name, comp, deps))
 
     def block(kind, comp, entries):
-        head = '%s("%s",' % (kind, comp) if comp != "" else "%s(" % kind
+        head = '%s(%s,' % (kind, _tags(comp)) if comp != "" else "%s(" % kind
         body = []
         for name, value in entries:
             if kn["annot"] and rng.random() < 0.3:
@@ -300,7 +308,7 @@ def gen_model(rng, knobs: dict | None = None) -> str:
             continue
         if kn["shuffle"]:
             rng.shuffle(lines)
-        head = 'expressions("%s")\n' % comp if comp != "" else ""
+        head = 'expressions(%s)\n' % _tags(comp) if comp != "" else ""
         chunks.append(head + "\n".join(lines) + "\n")
     # The unnamed component's bare assignments must not directly follow another
     # expressions block (they would be absorbed by it): order blocks so that the
@@ -309,6 +317,10 @@ def gen_model(rng, knobs: dict | None = None) -> str:
     exprs = [c for c in chunks if _is_expr_block(c)]
     exprs.sort(key=lambda c: 0 if not c.startswith("expressions(") else 1)
     return "\n".join(decl + exprs)
+
+
+def _tags(comp: str) -> str:
+    return ", ".join('"%s"' % c for c in comp.split("|"))
 
 
 def _is_expr_block(chunk: str) -> bool:
